@@ -30,7 +30,7 @@ WORDS = ['prog', 'arg1', '-f', 'x', '-r', '--run', '-g', '--gdb', '--', '', 'a b
 
 def plan(tier, seed):
     if tier == 'quick':
-        return [{'n': 2, 'statuses': 'some'} for _ in range(16)]
+        return [{'n': 4, 'statuses': 'some'} for _ in range(16)]
     return [{'n': 14, 'statuses': 'all', 'status_base': i * 4} for i in range(64)]
 
 
